@@ -168,6 +168,9 @@ class ReaderInit(Contract):
         else:
             c.ensure(Implies(newer, Iff(st, eq(tc, grid))), 'state.structured_iff_every_grid_position_has_a_trace')
         c.ensure(mk_bool(F.get('variant_headers') == {}), 'state.no_header_arrays_loaded')
+        # every later read (samples without preload, trace headers and header arrays with or without it) goes through this handle (C15:
+        # the same results with preload on and off)
+        c.ensure(mk_bool(a['file'].fields.get('closed') is False), 'state.file_handle_left_open_for_later_reads')
         c.ensure(mk_bool(F.get('segy_traceheader_template') is c.ghost.get('template')), 'state.template_from_the_header_table')
         # one key per stored ARRAY, in file order: a duplicated header word (181) shares the array of the field it duplicates and owns none
         # (the cropper and the re-blocker write one footer array per entry of this list: C10 / C12)
